@@ -17,6 +17,22 @@ func VX_C18_columns() {
 	f := vxFrame([]string{"s", "e"}, []vxCol{s, e}, ix)
 	rs := f.Filter(Filter{Column: "s", Comparator: cmp, Arg: pattern})
 	re := f.Filter(Filter{Column: "e", Comparator: cmp, Arg: pattern})
+	if vx.HasParam("ctx") {
+		// the pattern filter as a later member of an Or: rows selected by the earlier member stay selected
+		rs = f.Filter(Or(Filter{Column: "s", Comparator: "=", Arg: "c"}, Filter{Column: "s", Comparator: cmp, Arg: pattern}))
+		re = f.Filter(Or(Filter{Column: "e", Comparator: "=", Arg: "c"}, Filter{Column: "e", Comparator: cmp, Arg: pattern}))
+		if rs.Err == nil {
+			for _, p := range ix {
+				if vxBoolConc(vx.And(!s.null[p], s.s[p] == "c")) {
+					found := false
+					for _, q := range rs.index {
+						found = found || q == p
+					}
+					vx.Check(found, "a row selected by an earlier member of the Or stays selected")
+				}
+			}
+		}
+	}
 	vx.Check((rs.Err == nil) == (re.Err == nil), "string and enum agree on validity of the pattern")
 	if rs.Err != nil || re.Err != nil {
 		vx.Reach("end-invalid")
